@@ -178,25 +178,45 @@ def solve_old(assertions, timeout_s, logic=None):
     return "unknown", None
 
 
+def _has_int_var(t):
+    seen = set()
+    stack = [t]
+    while stack:
+        x = stack.pop()
+        i = x.get_id()
+        if i in seen:
+            continue
+        seen.add(i)
+        if z3.is_const(x):
+            if x.decl().kind() == z3.Z3_OP_UNINTERPRETED and z3.is_int(x):
+                return True
+        else:
+            stack.extend(x.children())
+    return False
+
+
 def int_combo_hints(lhs, rhs):
     """If lhs - rhs is linear in integer variables k_i with coefficients c*n_i (n_i integers), name the integer
     combination  n = sum n_i k_i  with a fresh variable.  A definition of a fresh variable is conservative; it lets
     the LIA engine branch on the combination (without it z3 answers 'unknown' on congruence-mod-2pi goals)."""
+    if not (_has_int_var(lhs) or _has_int_var(rhs)):
+        return []
     try:
-        red = poly.Reducer({})
+        red = poly.Reducer({}, max_terms=20000)
         d = poly.p_add(red.nf(lhs), red.nf(rhs), -1)
     except poly.NotPolynomial:
         return []
     lin = []
     for m, c in d.items():
-        if len(m) == 1 and m[0][1] == 1:
-            zt = red.zvars.get(m[0][0])
+        its = poly.m_items(m)
+        if len(its) == 1 and its[0][1] == 1:
+            zt = red.zvars.get(its[0][0])
             if zt is not None and (z3.is_int(zt) or zt.decl().kind() == z3.Z3_OP_TO_REAL):
                 lin.append((zt if z3.is_int(zt) else zt.arg(0), c))
     if len(lin) < 2:
         return []
     c0 = lin[0][1]
-    ratios = [c / c0 for _v, c in lin]
+    ratios = [Fraction(c) / Fraction(c0) for _v, c in lin]
     if any(r.denominator != 1 for r in ratios):
         return []
     n = z3.Int("ncombo!%d" % (abs(hash(str(lhs.hash()) + str(rhs.hash()))) % 10**9))
